@@ -292,6 +292,42 @@ func C19(c *fw.Ctx) {
 			}
 		}
 	}
+	// ---- (3b) input lines of every size: a line of n characters (n across every power of two from 2^8 to
+	// 2^17, ASCII and Bangla) is returned whole, and the next call gets the next line; under line-wise and
+	// all-at-once delivery
+	{
+		for _, unit := range []string{"x", "\u0995"} {
+			for k := 8; k <= 17; k++ {
+				for d := -1; d <= 1; d++ {
+					for mode := 0; mode < 2; mode++ {
+						if !c.Mine() {
+							continue
+						}
+						n := 1<<uint(k) + d
+						line := strings.Repeat(unit, n)
+						src := model.KwVar + " s = " + model.BiInput + "();\n" + model.KwPrint + " s == \"" + line + "\";\n" + model.KwPrint + " " + model.BiInputLatin + "();\n" + model.KwPrint + " \"end\";\n"
+						stdin := line + "\ntail\n"
+						o := h.RunFile(src, h.Opts{Stdin: stdin, StdinMode: mode, Fuel: int64(2_000_000 + 200*len(src))})
+						c.Eval(fmt.Sprint(mode)+src, true)
+						c.R.States++
+						base := fw.Replay{Mode: "file", Program: trunc(src, 400), Stdin: trunc(stdin, 200), CLI: false, InStdout: o.Stdout, InStderr: trunc(o.Stderr, 300), InStatus: o.Status}
+						if abnormal(c, o, "file", trunc(src, 200), base) {
+							continue
+						}
+						c.Outcome(o.Stdout)
+						if o.Stdout != "true\ntail\nend\n" || o.Status != 0 || o.Stderr != "" {
+							r := base
+							r.Sig = "C19|input-lines|long-line"
+							r.What = fmt.Sprintf("an input line of %d characters must be returned whole and the next call must get the next line", n)
+							r.Expected = "stdout \"true\\ntail\\nend\\n\" status 0, empty stderr"
+							r.Observed = fmt.Sprintf("stdout %q status %d stderr %q (delivery mode %d)", trunc(o.Stdout, 100), o.Status, trunc(o.Stderr, 200), mode)
+							c.Violate(r)
+						}
+					}
+				}
+			}
+		}
+	}
 	// ---- (4) the real executable ----------------------------------------
 	if cli := os.Getenv("VERIF_CLI"); cli != "" && c.Shard == 0 {
 		dir, _ := os.MkdirTemp(os.Getenv("VERIF_SCRATCH"), "c19.")
